@@ -791,3 +791,51 @@ def r10(ctx):
         yield VIOL("C01-R10", "stage/carrier-parser->get_auth_parameters", "get_auth_parameters does not return the carrier parser's AuthParams as it is: %s" % (bad[0][1] if bad else "no Ok result"), where=g.span_of_block(bad[0][0]) if bad else loc(g.j["span"]))
     else:
         yield PASS("C01-R10", "stage/carrier-parser->get_auth_parameters", "Ok(params): params moved from the carrier parser's `?` result, not modified", [site(g, oks[0][0], "Ok")])
+
+
+@M.rule("C01-R11", "no door is opened: what the reviewed tree keeps private stays private under the default features")
+def r11(ctx):
+    """The per-function rules rely on who can call what: the canonical request, the authenticator and the key types are
+    built and advanced only by the crate's own code, in the reviewed order. A function or field that the reviewed tree
+    keeps crate-private and that is public now (a `pub(crate)` -> `pub`, a `qualifiers(..)` attribute flipped, a field made
+    public) lets a caller build a value outside the invariants or run a later step without the earlier one; so does a
+    new public method of a reviewed type that hands out `&mut` access to it. Each feature configuration is compared with
+    its own table (`unstable` publishes functions on purpose, for testing - but not the fields)."""
+    import json as _json
+    import os
+    cfgk = "unstable" if "feature=unstable" in (ctx.facts.j.get("crate_cfg") or []) else "default"
+    tab = _json.load(open(os.path.join(os.path.dirname(os.path.abspath(__file__)), "tables", "visibility.json")))[cfgk]
+    n = 0
+    bad = 0
+    for b in ctx.facts.j["bodies"]:
+        p_ = (ctx.facts.j.get("moved") or {}).get(b["path"], b["path"])
+        if b.get("vis") is None or "{closure" in p_:
+            continue
+        was = tab["fns"].get(p_)
+        now = "pub" if "Public" in str(b["vis"]) else "restricted"
+        n += 1
+        if was == "restricted" and now == "pub":
+            bad += 1
+            yield VIOL("C01-R11", "visibility/fn/" + p_, "`%s` is crate-private in the reviewed tree and public now: callers can run this step on values of their own making / out of the reviewed order" % p_, where=loc(b["span"]))
+        elif was is None and now == "pub" and re.match(r"^&('\w+ )?mut ", (b.get("locals") or [{}])[0].get("ty", "")) and re.search(r"(auth|canonical|signing_key|signature)::", " ".join(l_.get("ty", "") for l_ in (b.get("locals") or [])[1:1 + b.get("arg_count", 0)])):
+            bad += 1
+            yield VIOL("C01-R11", "visibility/mut-access/" + p_, "new public `%s` hands out mutable access to a reviewed type" % p_, where=loc(b["span"]))
+    for a in ctx.facts.j["adts"]:
+        for var in a["variants"]:
+            for f_ in var["fields"]:
+                k_ = "%s.%s" % (a["path"], f_["name"])
+                was = tab["fields"].get(k_)
+                now = "pub" if "Public" in str(f_.get("vis")) else "restricted"
+                n += 1
+                if was == "restricted" and now == "pub":
+                    bad += 1
+                    yield VIOL("C01-R11", "visibility/field/" + k_, "field `%s` is private in the reviewed tree and public now: its invariant (set by the one reviewed constructor) can be broken by any caller" % k_, where=loc(a["span"]))
+    for im in ctx.facts.impls:
+        if re.search(r"ops::DerefMut$|convert::AsMut<|borrow::BorrowMut<", im.get("trait", "") or "") and re.search(r"^(auth|canonical|signing_key|signature)::", im.get("self_ty", "")):
+            bad += 1
+            yield VIOL("C01-R11", "visibility/mut-impl/%s" % im["self_ty"], "`%s` now implements `%s`: mutable access to a reviewed type from outside" % (im["self_ty"], im["trait"]), where=None)
+    ctx.count(max(1, n))
+    if n < 200:
+        yield MISSING("C01-R11", "visibility/floor", "only %d functions / fields seen" % n)
+    elif not bad:
+        yield PASS("C01-R11", "visibility/no-door", "%d functions and fields: nothing the reviewed tree keeps private is public" % n, [])
